@@ -24,6 +24,16 @@ CHECKS = {
    text="Every conditional command type (KV cas/delete-cas direct and in transactions, check-index guards, catalog node/service/check cas and delete-cas incl. writers carrying a different node ID, config entry upsert-cas/with-status-cas/delete-cas, CA set-config, CA set-roots, CA set-roots-and-config with the cross product of both indexes, autopilot CAS, ACL token CAS, feature-gate update with both expected indexes) is applied to every pre-state (absent, present, modified, re-created, deleted) with every supplied index class (0, current, previous, future). Matched is computed from the pre-state; applied from a byte comparison of the full 36-table dump; required: matched<=>applied<=>reported, and composites all-or-nothing.",
    note="The grid is finite and enumerated completely (quick = thorough). ACL token CAS has no success flag, only applied<=>matched is decided. Deleting an absent entity is treated as vacuous.",
    design="§3 C10"),
+ "C01": dict(level="model_checking", engine="E1 opseq-BFS",
+   technique="explicit-state BFS over every registered FSM command type; replica comparison (in-process fresh replays + a second OS process with a shifted clock) of command results and full state dumps on every transition",
+   text="Breadth-first search over encoded raft log entries of all 36 registered command types (accepted and rejected variants; coverage audited against the FSM's dispatch table) from six seed states. After every transition the command result, the full 36-table dump and the resource store of N in-process replicas (fresh replays, hence fresh map iteration order and a later wall-clock instant) and of one replica in a second OS process whose clock runs 1000 h ahead (the state, fsm, structs and storage packages are compiled against a shifted clock by rewriting only their time import) must be byte-identical.",
+   note="Go map iteration order cannot be enumerated; it is sampled by the replicas of every transition (amplification, not coverage). The deliberately unreplicated lock-delay map is excluded.",
+   design="§3 C01"),
+ "C02": dict(level="model_checking", engine="E1 opseq-BFS",
+   technique="explicit-state BFS; every reached state is a snapshot cut point: real Snapshot/Persist/Restore round trip, table + query + continuation differential against the un-restored replica",
+   text="Every state of a BFS over all command types is snapshotted through the real FSM.Snapshot().Persist and restored into a fresh FSM (near the seeds also over a store that already holds other data, checking that the old store is abandoned). Compared: all 36 tables with indexes, the resource store, ~130 read queries (result and reported index); then every op of the alphabet is applied to both replicas and results and resulting states are compared. Differences are classified by table tier, direction and query.",
+   note="12 signature classes that come from upstream's re-derivation of derived tables on restore (row indexes of gateway-services, kind-service-names, mesh-topology, usage and what follows from them; dialer secret UUID) are listed as known findings; everything else is a violation. Two genuine defects found here were repaired (manual VIPs lost, peering table index lowered).",
+   design="§3 C02"),
  "C03": dict(level="model_checking", engine="E1 opseq-BFS",
    technique="explicit-state BFS over KV/session/txn command sequences on the real FSM, reference-map oracle on every transition",
    text="Every sequence (to the reported depth, from every seed) of direct and transactional KV verbs, session create/destroy and tombstone reaps over prefix-colliding keys is executed on the real fsm.FSM/state.Store; after every transition the command result, get of every key and list of every prefix are compared with a 150-line reference map. Exhaustive within the stated alphabet and depth.",
